@@ -112,7 +112,7 @@ Section Marks.
         * cbn. constructor.
       + apply marks_flat. intros kid Hin. destruct (Hk kid Hin) as [t0 [ns0 [nm0 [y Hy]]]]. eapply IH. exact Hy.
     - destruct t as [| |el]; try discriminate.
-      destruct (mapM (penc shape_ok L C U k el (arr_ns (xc C) U el) (type_name U el)) xs) as [kids| |] eqn:Em; try discriminate.
+      destruct (mapM (penc shape_ok L C U k el (item_ns C U ns name el) (type_name U el)) xs) as [kids| |] eqn:Em; try discriminate.
       cbn in H. inversion H; subst. cbn [marks real_atts filter lookup_att app].
       apply marks_flat. intros kid Hin. apply mapM_inv in Em.
       clear - Em Hin IH. induction Em; [destruct Hin|]. destruct Hin as [<-|Hin]; [eapply IH; eauto|auto].
@@ -141,7 +141,7 @@ Section Marks.
       cbn [app marks real_atts filter lookup_att]. apply Hflat.
       intros kid Hin. destruct (Hk kid Hin) as [t0 [ns0 [nm0 [y Hy]]]]. eapply IH. exact Hy.
     - destruct t as [| |el]; try discriminate.
-      destruct (mapM (penc shape_ok L C U k el (arr_ns (xc C) U el) (type_name U el)) xs) as [kids| |] eqn:Em; try discriminate.
+      destruct (mapM (penc shape_ok L C U k el (item_ns C U ns name el) (type_name U el)) xs) as [kids| |] eqn:Em; try discriminate.
       cbn in H. inversion H; subst. cbn [marks real_atts filter lookup_att app].
       apply Hflat. intros kid Hin. apply mapM_inv in Em.
       clear - Em Hin IH. induction Em; [destruct Hin|]. destruct Hin as [<-|Hin]; [eapply IH; eauto|auto].
